@@ -324,6 +324,7 @@ type vC09H struct {
 	windowBad                bool
 	removed                  []vC09Sym
 	initCfg                  []vC09Sym
+	idx                      int
 	windowBadSeen            bool
 	windowOkSeen             bool
 	tRun, tNew               time.Duration
@@ -561,7 +562,7 @@ func (h *vC09H) newResolver(cfg []vC09Sym) {
 			"k":          "window-clean",
 			"coq":        fmt.Sprintf("CWindow %s %s [%s] %s", h.tbl(), vC09KeysCoq(cfg), strings.Join(tb, ";"), vC09KeysCoq(h.cur.live)),
 			"nontrivial": true,
-			"desc":       map[string]any{"what": "rootKeys right after NewResolver vs tombstones on disk", "config": vC09KeysCoq(cfg), "observed": h.cur.short()},
+			"desc":       map[string]any{"index": h.idx, "what": "rootKeys right after NewResolver vs tombstones on disk", "config": vC09KeysCoq(cfg), "observed": h.cur.short()},
 		}
 		if viol {
 			rec["k"] = "window-revoked-configured"
@@ -597,6 +598,17 @@ func (h *vC09H) restart(cfg []vC09Sym) {
 func (h *vC09H) advance(min int64) {
 	if min <= 0 {
 		return
+	}
+	// never land an entry exactly on a hold-down boundary: the code compares real
+	// nanoseconds (boundary + a few ms counts as "after"), the cases carry minutes
+	for again := true; again; {
+		again = false
+		for _, e := range h.cur.state {
+			if age := h.V + min - e.fs; age == 30*vC09Day || age == 90*vC09Day {
+				min++
+				again = true
+			}
+		}
 	}
 	d := time.Duration(min) * time.Minute
 	if b, ok := vC09ReadOpt(h.spath()); ok {
@@ -1217,6 +1229,34 @@ func (h *vC09H) scenario(kind string) {
 		}
 		h.run(h.honest(), vC09Faults{})
 
+	case "pendabort":
+		// a pending key drops out of one accepted refresh and comes back: the add hold-down restarts
+		a, b := h.fresh(&next), h.fresh(&next)
+		h.pub = []vC09Sym{a}
+		h.start([]vC09Sym{a})
+		h.run(h.honest(), vC09Faults{})
+		h.publish(b)
+		h.run(h.honest(), vC09Faults{})
+		h.advance(int64(1+r.Intn(20)) * vC09Day)
+		h.unpublish(b)
+		fl := vC09Faults{}
+		if r.Intn(4) == 0 {
+			fl.swrite = true // the refresh that saw the key missing could not be recorded
+		}
+		h.run(h.honest(), fl)
+		if r.Intn(3) == 0 {
+			h.restart(h.pickConfig(&next))
+		}
+		h.advance(int64(1+r.Intn(3)) * vC09Day)
+		h.publish(b)
+		h.run(h.honest(), vC09Faults{})
+		h.advance(30*vC09Day - int64(r.Intn(3))*vC09Day - h.V + []int64{-60, 1, 60}[r.Intn(3)])
+		h.run(h.honest(), vC09Faults{})
+		h.advance(h.pickAdvance())
+		h.run(h.honest(), vC09Faults{})
+		h.advance(h.pickAdvance())
+		h.run(h.honest(), vC09Faults{})
+
 	case "forged":
 		a := h.fresh(&next)
 		h.pub = []vC09Sym{a}
@@ -1366,6 +1406,37 @@ func (h *vC09H) scenario(kind string) {
 		h.unpublish(j)
 		h.run(h.honest(), vC09Faults{})
 
+	case "tagattack":
+		// an unrelated self-signed key whose revoked form has the tag a real anchor's revoked
+		// form would have: it must neither authenticate the response nor revoke the anchor
+		pr := h.pool.collide[r.Intn(len(h.pool.collide))]
+		kk, j := vC09Sym{pr[0], 257}, vC09Sym{pr[1], 257}
+		if r.Intn(2) == 0 {
+			kk, j = j, kk
+		}
+		b := h.fresh(&next)
+		h.pub = []vC09Sym{kk, b}
+		h.start([]vC09Sym{kk, b})
+		h.run(h.honest(), vC09Faults{})
+		for i := 0; i < 3; i++ {
+			fe := vC09Fetch{keys: []vC09Sym{kk, b, vC09Rev(j)}}
+			switch r.Intn(4) {
+			case 0: // the attacker has no trusted key at all
+				fe.sigs = []vC09Sig{{signer: vC09Rev(j)}}
+			case 1: // published next to honestly signed data
+				fe.sigs = []vC09Sig{{signer: kk}, {signer: b}, {signer: vC09Rev(j)}}
+			case 2:
+				fe.keys = []vC09Sym{b, vC09Rev(j)}
+				fe.sigs = []vC09Sig{{signer: b}, {signer: vC09Rev(j)}}
+			default:
+				fe.keys = []vC09Sym{vC09Rev(j), kk, b}
+				fe.sigs = []vC09Sig{{signer: vC09Rev(j)}, {signer: b}}
+			}
+			h.run(fe, h.pickFaults())
+			h.advance(h.pickAdvance())
+		}
+		h.run(h.honest(), vC09Faults{})
+
 	case "revcol":
 		// a key whose tag equals the tag of another anchor's revoked form (correspondence only)
 		pr := h.pool.revcol[r.Intn(len(h.pool.revcol))]
@@ -1440,6 +1511,8 @@ var vC09Kinds = []struct {
 	{"rollover", 22, "", "hist"},
 	{"missing", 12, "", "hist"},
 	{"forged", 10, "", "hist"},
+	{"pendabort", 8, "", "hist"},
+	{"tagattack", 5, "", "hist"},
 	{"revfault", 14, "", "hist"},
 	{"cfgboth", 2, "", "check"},
 	{"collide-missing", 1, "", "check"},
@@ -1521,7 +1594,7 @@ func TestVerifC09AutoTA(t *testing.T) {
 		if err != nil {
 			t.Skipf("inotify unavailable: %v", err)
 		}
-		h := &vC09H{t: t, pool: pool, rng: hr, dir: dir, srv: srv, watch: w, used: map[vC09Sym]bool{}, t0: time.Now()}
+		h := &vC09H{t: t, pool: pool, rng: hr, dir: dir, srv: srv, watch: w, used: map[vC09Sym]bool{}, t0: time.Now(), idx: idx}
 		h.scenario(kd.kind)
 		w.close()
 		vC09Stats.tRun += h.tRun
